@@ -171,7 +171,7 @@ func derivedQueries(n *Node) string {
 }
 
 func checkC06(c *harness.Check) {
-	c.Rule = "complete table enumeration: for each of 64 squares every occupancy subset of its rank+file (rook), of its two diagonals (bishop), both halves separately and 2^12 joint subsets nearest the square (queen), own square occupied and empty; every single off-line occupied square added to the empty and the full subset (quick) / to every subset (thorough) to expose cross-talk of a wrong rotation entry; king/knight for all squares; pawn capture/move boards for every single pawn and both colours; derived queries (IsAttacked/IsDefended/IsChecked/IsCheckMate/FindCapture/FindPins K+Q) vs definitions on every node of BFS closures and families incl. the back-rank-check family and K+Q/K+R v K with the lone king on the edge (where the mates are). distinct_nontrivial = distinct (piece, square, attack set) triples"
+	c.Rule = "complete table enumeration: for each of 64 squares every occupancy subset of its rank+file (rook), of its two diagonals (bishop), both halves separately and 2^12 joint subsets nearest the square (queen), own square occupied and empty; every single off-line occupied square added to the empty and the full subset (quick) / to every subset (thorough) to expose cross-talk of a wrong rotation entry; king/knight for all squares; pawn capture/move boards for every single pawn and both colours; derived queries (IsAttacked/IsDefended/IsChecked/IsCheckMate/FindCapture/FindPins K+Q) vs definitions on every node of BFS closures and families incl. the back-rank-check family K+Q/K+R v K with the lone king on the edge (where the mates are), and a two-queens family (two queens of one colour, an enemy rook or bishop on every square, an own knight and pawn on every pair of squares: several targets for one pin query). distinct_nontrivial = distinct (piece, square, attack set) triples"
 	straight := [][2]int{{1, 0}, {-1, 0}, {0, 1}, {0, -1}}
 	diag := [][2]int{{1, 1}, {1, -1}, {-1, 1}, {-1, -1}}
 	type job struct {
@@ -300,6 +300,7 @@ func checkC06(c *harness.Check) {
 	WalkFlat(c, corpus.CastlingUnderAttack, visit, nil)
 	WalkFlat(c, corpus.BackRankFamily, visit, nil) // many checkmates whose only 'flight' is the x-rayed square behind the king
 	WalkFlat(c, func(e func(*ref.Pos)) { corpus.KXvKHeavy(c.Thorough(), e) }, visit, nil)
+	WalkFlat(c, func(e func(*ref.Pos)) { corpus.TwoQueensFamily(c.Thorough(), e) }, visit, nil) // several targets of one kind for the pin query
 	if c.Thorough() {
 		WalkFlat(c, corpus.KXvK, visit, nil)
 	}
